@@ -18,7 +18,7 @@ from ..lib import coqrun, driver, env, proofs, report
 from ..translate import settings_models
 
 PROP = "C20"
-PROP_BITS = (1, 2, 3, 4, 5)
+PROP_BITS = (1, 2, 3, 4, 5, 6)
 CORPUS = os.path.join(env.VERIF, "corpus", "cache")
 
 
@@ -132,6 +132,23 @@ def build_streams(lab, tier, seed, consulted):
         again = [rng.choice(lab.pool) for _ in range(rng.randrange(1, 4))]
         hist.append(inproc("call-history", fl, rmdir=(rng.random() < 0.05),
                            starts=[ops(*calls), "import", ops(*again), "import"]))
+    # 3c. sessions: rc(schema=v) for every spelling of every branch (and an unknown one) on damaged
+    #     entries of that branch, switching back and forth, then restarts
+    spellings = [n for b in lab.schemas for n in b["names"]] + ["no-such-schema"]
+    for v in spellings:
+        bfiles = sorted({entry_file(c) for c in lab.expand([("schema", v)])})
+        dmgs = [{}] + [{f: op} for f in bfiles[:3] for op in (("del",), ("cut", 0), ("cut", rng.randrange(1, sizes[f])))]
+        dmgs.append({f: rng.choice([("del",), ("cut", 0), ("cut", 1)]) for f in bfiles})
+        for dmg in (dmgs if (not quick or v in ("asjp", "ipa", "evolaemp")) else dmgs[:3] + dmgs[-1:]):
+            other = rng.choice(spellings)
+            hist.append(inproc("schema-session", dmg, starts=[ops(("schema", v)), ops(("schema", v)), "import"]))
+            hist.append(inproc("schema-session", dmg, starts=["import", ops(("schema", v), ("schema", other), ("schema", v)),
+                                                              "import"]))
+    for _ in range(25 if quick else 600):
+        hist.append(inproc("schema-session", random_faults(rng, files, sizes),
+                           starts=["import", ops(*[("schema", rng.choice(spellings)) for _ in range(rng.randrange(1, 4))]),
+                                   ops(*[rng.choice(lab.pool + [("schema", rng.choice(spellings))]) for _ in range(3)]),
+                                   "import"]))
     for m in models:
         f = entry_file(m)
         hist.append(inproc("model-call", {f: ("cut", rng.randrange(0, sizes[f]))}, starts=[ops(m), ops(m), "import"]))
@@ -144,7 +161,8 @@ def build_streams(lab, tier, seed, consulted):
             c = rng.random()
             rd = {"faults": random_faults(rng, files, sizes), "rmdir": False, "starts": 1 if rng.random() < 0.7 else 2}
             if rng.random() < 0.35:      # calls after the import in the same interpreter, then a restart
-                rd["starts"] = [ops(*[rng.choice(aliases if rng.random() < 0.7 else lab.pool)
+                rd["starts"] = [ops(*[rng.choice(aliases if rng.random() < 0.5 else
+                                                 [("schema", sp) for sp in spellings] if rng.random() < 0.6 else lab.pool)
                                       for _ in range(rng.randrange(1, 4))]), "import"]
             if c < 0.08:
                 rd["rmdir"] = rng.choice([True, "parent"])
@@ -221,7 +239,7 @@ def setup_lab(run, tag=""):
                            "settings.py instantiates Model(%r) whose directory has a scorer tree but no matrix; "
                            "compile_model would write into the package data" % st["arg"]}, no_input=True)
             return None, None
-    lab = comp.Lab(env.SRC, info["steps"], tag, dirs=info["dirs"])
+    lab = comp.Lab(env.SRC, info["steps"], tag, dirs=info["dirs"], schemas=info["schemas"])
     try:
         lab.boot()
     except BaseException as e:      # noqa: `import lingpy` itself failed on an absent cache directory
@@ -312,7 +330,9 @@ def main(tier, seed):
         "compared over all keys with what the data files say (read without lingpy code, NFC). "
         "Streams: every file x {deleted, emptied, truncated at %s}; %s of the consulted files; seeded random "
         "multi-file states incl. foreign files and a removed directory; call histories (each path alias of load_dvt "
-        "on a damaged entry, then restarts; the *_el family; random calls between restarts); %d real interpreters (`import lingpy`, "
+        "on a damaged entry, then restarts; the *_el family; random calls between restarts; sessions with "
+        "rc(schema=v) for every accepted spelling and an unknown one, the branch being selected inside Coq from the "
+        "regenerated if/elif chain of settings.rc); %d real interpreters (`import lingpy`, "
         "XDG_CACHE_HOME redirected) over random multi-file states and restart sequences. "
         "Non-trivial = at least one start had to rebuild an entry (a cache.dump happened); distinct by the damage."
         % ("every offset < 64 of the consulted files + 16 offsets incl. 1 and size-1" if tier == "quick" else
